@@ -122,7 +122,10 @@ claim("C11", "other",
       "windows of azimuth a, for any number of azimuths and windows (loop invariant over ghost prefix sums OFF(a); np.sum of a mask is the "
       "ghost count of the object); the algebraic steps 'n_a weights of 1/(A n_a) sum to 1/A' and 'A = 1 gives the n-1 denominator'; "
       "mean_curve_by_azimuth and mean_curve_peak_by_azimuth return, for every number of azimuths, row / entry a = the mean curve / mean-curve "
-      "peak of hvsrs[a] for the distribution asked for (per-azimuth accessors opaque: C05 / C08). "
+      "peak of hvsrs[a] for the distribution asked for (per-azimuth accessors opaque: C05 / C08); the weighted estimators the azimuthal "
+      "statistics call - _nanmean_weighted with explicit weights = sum w g(v) / sum w (exp of it for lognormal) and "
+      "_nanstd_weighted(denominator='cheng') = sqrt(sum w (g(v) - mean)^2 / (1 - sum w^2)) for NaN-free samples and weights (sample sums "
+      "named, np.nansum trusted). "
       "Cross-check / bounded (labelled): every azimuthal statistic (means, Cheng standard deviations with 1 - sum w^2, weighted covariance "
       "and its diagonal = std^2, mean / std / nth-std curves, per-azimuth mean curves, mean-curve peak) against independent weighted "
       "estimators over mask histories incl. redistributing accepted windows between azimuths, azimuth-order independence, single-azimuth "
